@@ -81,6 +81,10 @@ pub struct Bounds {
     /// (peer, from, until): the peer does not see anything the lagger sends to its consensus port.
     #[serde(default)]
     pub deaf: Option<(usize, u64, u64)>,
+    /// Crash the author of the first own proposal that reaches the lagger after the heal, at
+    /// that very instant (so that the lagger's request for its parent finds nobody).
+    #[serde(default)]
+    pub crash_first_proposer: bool,
 }
 
 /// Content-triggered slow-leader fault: when round r-1 is first seen on the wire and r is in
